@@ -216,6 +216,15 @@ Proof.
 Qed.
 
 (* ---- site tie: the dq_state accesses of the modelled functions are the ones the translator reads from the source ---- *)
+(* the accounting judge: a reachable state passes with ITS ghost state (so a recorded word that fails with the ghost state
+   reconstructed from the run is not a state the model can be in with that ghost state) *)
+Theorem acct_ok_sound W s : 2 <= W <= 4094 -> reach W s -> acct_ok W (st s) (U s + dw s) (bmode s) = true.
+Proof.
+  intros HW R. destruct (inv_reach W s HW R) as (_ & (r & G) & _).
+  unfold acct_ok. cbv zeta. rewrite (g_enc _ _ _ G), dec_enc by apply (g_wf _ _ _ G).
+  rewrite (g_wq _ _ _ G), (g_ib _ _ _ G). apply andb_true_iff. split; [apply Z.eqb_eq; lia|destruct (bmode s); reflexivity].
+Qed.
+
 Lemma model_sites_match :
   model_sites_try_reserve_sync_width = f_dispatch_queue_try_reserve_sync_width_sites /\
   model_sites_try_acquire_async = f_dispatch_queue_try_acquire_async_sites /\
